@@ -6,6 +6,7 @@ import (
 	"go/token"
 	"go/types"
 	"sort"
+	"strconv"
 	"strings"
 
 	"golang.org/x/tools/go/packages"
@@ -16,7 +17,7 @@ func init() {
 	register(&propCheck{
 		id:    "C11",
 		level: "other",
-		explanation: "Static decision of the tables whose order and completeness the property singles out: (D1) the deserialiser's decision list (a 30-way chain of equality and substring tests) is evaluated symbolically for the text of every error kind — as is and blank-padded (upper-cased variants are reported as information only: serialisation never changes case) — and the first matching case must return that very kind; kind texts contain neither ':' nor a newline (the serialised form splits on them); (D2) every kind appears in IsCommonError and has a case of its own; (D3) Errorf's format has exactly one %w, first, bound to the target kind after ConvertContextError / the ErrUnknown default, and WrapError lets a cancellation/deadline cause replace the target; (D4) the converters named by the property pass their argument through ConvertContextError before any classification, and a pass-through case for ErrTimeout/ErrCancelled precedes every re-classifying case; (D5) every call of commonerrors.Any/None outside tests has at least one candidate (a call with the target alone is constantly false/true: the condition it was written for is never mapped). Decided on the typed AST and SSA with go/constant; nothing is executed. Not decided: arbitrary reasons and wrapping chains (string behaviour of fmt/errors/strings), joined errors, errors.Is itself.",
+		explanation: "Static decision of the tables whose order and completeness the property singles out: (D1) the deserialiser's decision list (a 30-way chain of equality and substring tests) is evaluated symbolically for the text of every error kind — as is and blank-padded (upper-cased variants are reported as information only: serialisation never changes case) — and the first matching case must return that very kind; kind texts contain neither ':' nor a newline (the serialised form splits on them); (D2) every kind appears in IsCommonError and has a case of its own; (D3) Errorf's format has exactly one %w, first, bound to the target kind after ConvertContextError / the ErrUnknown default, and WrapError lets a cancellation/deadline cause replace the target; (D4) the converters named by the property pass their argument through ConvertContextError before any classification, and a pass-through case for ErrTimeout/ErrCancelled precedes every re-classifying case; (D5) every call of commonerrors.Any/None outside tests has at least one candidate (a call with the target alone is constantly false/true: the condition it was written for is never mapped). (D6) the deserialiser re-joins every ':'-separated element after the kind into the reason, empty ones included (unconditional append in a loop from index 1). Decided on the typed AST and SSA with go/constant; nothing is executed. Not decided: arbitrary reasons and wrapping chains (string behaviour of fmt/errors/strings), joined errors, errors.Is itself.",
 		run:   runC11,
 		assumptions: []string{
 			"errors.Is and fmt.Errorf(\"%w\") behave as documented",
@@ -91,6 +92,7 @@ func runC11(c *Ctx) {
 	c.rule("D2", "every kind is listed in IsCommonError and has its own case in the deserialiser", 54)
 	c.rule("D3", "Errorf: one %w, first, bound to the target kind after ConvertContextError (ErrUnknown when nil); WrapError: a cancellation/deadline cause replaces the target kind", 3)
 	c.rule("D4", "converters normalise context errors first; a pass-through case for ErrTimeout/ErrCancelled precedes every re-classifying case", 5)
+	c.rule("D6", "deserialisation re-joins every element after the kind into the reason: loop from index 1, step one, unconditional append of the (trimmed) element", 1)
 	c.rule("D5", "every call of commonerrors.Any / None has at least one candidate error", 45)
 
 	p := c.tpkg(cePkg)
@@ -267,6 +269,83 @@ func runC11(c *Ctx) {
 	c.c11Wrapping()
 	c.c11Converters()
 	c.c11Vacuous()
+	c.c11Reason()
+}
+
+// c11Reason (D6): "the same reason up to whitespace around colons". processErrorStrLine splits the text on the
+// separator, takes element 0 as the kind and re-joins the others: every other element, empty ones included, has
+// to be re-joined — the loop starts at index 1, steps by one, and the append sits on every way round the loop.
+func (c *Ctx) c11Reason() {
+	f := c.fn(cePkg, "processErrorStrLine")
+	c.FuncsSeen[fname(f)] = true
+	key := fname(f) + "/reason-elements"
+	var apps []*ssa.Call
+	allInstrs(f, func(in ssa.Instruction) {
+		cl, ok := in.(*ssa.Call)
+		if !ok {
+			return
+		}
+		if b, isB := cl.Call.Value.(*ssa.Builtin); isB && b.Name() == "append" && inLoop(cl) {
+			if sl, isS := cl.Type().Underlying().(*types.Slice); isS {
+				if bb, isBasic := sl.Elem().Underlying().(*types.Basic); isBasic && bb.Kind() == types.String {
+					apps = append(apps, cl)
+				}
+			}
+		}
+	})
+	if len(apps) != 1 {
+		c.undecided("D6", key, c.pos(f.Pos()), "expected exactly one append of reason elements inside a loop, found "+strconv.Itoa(len(apps)))
+		return
+	}
+	app := apps[0]
+	h := loopHeaderOf(app)
+	if h == nil {
+		c.undecided("D6", key, c.ipos(app), "loop header not found")
+		return
+	}
+	// the counter: a phi at the header with a constant start and a +1 step
+	start, step := int64(-1), false
+	for _, in := range h.Instrs {
+		phi, ok := in.(*ssa.Phi)
+		if !ok {
+			continue
+		}
+		for _, e := range phi.Edges {
+			if k, isC := constInt(e); isC {
+				start = k
+			}
+			if add, isA := e.(*ssa.BinOp); isA && add.Op == token.ADD && add.X == ssa.Value(phi) {
+				if k, isC := constInt(add.Y); isC && k == 1 {
+					step = true
+				}
+			}
+		}
+	}
+	if start != 1 || !step {
+		c.violate("D6", key, c.ipos(app), "the loop over the split elements does not run from index 1 in steps of one (start "+strconv.FormatInt(start, 10)+"): elements of the reason are skipped or the kind is repeated in it")
+		return
+	}
+	term := h.Instrs[len(h.Instrs)-1]
+	skip := pathAvoiding(term, func(i ssa.Instruction) bool { return i == ssa.Instruction(app) }, func(i ssa.Instruction) bool { return i == h.Instrs[0] })
+	if skip != nil {
+		c.violate("D6", key, c.ipos(app), "the append of a split element to the reason is conditional: there is a way round the loop that drops an element (an empty one, as between the colons of \"::1\" or in \"kind: : cause\"), so the text re-joined differs from the original by more than whitespace")
+		return
+	}
+	// what is appended is the element, trimmed at most
+	okElem := false
+	elems := variadicElems(app.Call.Args[len(app.Call.Args)-1])
+	if len(elems) == 1 {
+		for _, l := range sources(elems[0], deriveOpts{through: func(n string) bool { return n == "strings.TrimSpace" }}) {
+			if cl, ok := l.(*ssa.Call); ok && calleeFull(&cl.Call) == "strings.Split" {
+				okElem = true
+				continue
+			}
+			okElem = false
+			break
+		}
+	}
+	c.check(okElem, "D6", key, c.ipos(app), "every element after the kind is re-joined (trimmed), on every way round the loop",
+		"what is appended to the reason is not the split element (trimmed)")
 }
 
 func isGlobalLoad(v ssa.Value, name string) bool {
